@@ -1,4 +1,81 @@
 package main
 
+import (
+	"bytes"
+	"go/ast"
+	"go/printer"
+)
+
+func c17Src(rel string, e ast.Node) string {
+	var b bytes.Buffer
+	if err := printer.Fprint(&b, load(rel).fset, e); err != nil {
+		fail("print: %v", err)
+	}
+	return b.String()
+}
+
+// c17IfConds: conditions of every `if` inside fd, source order, as source text
+func c17IfConds(rel string, fd *ast.FuncDecl) []string {
+	var res []string
+	ast.Inspect(fd.Body, func(n ast.Node) bool {
+		if s, ok := n.(*ast.IfStmt); ok {
+			res = append(res, c17Src(rel, s.Cond))
+		}
+		return true
+	})
+	return res
+}
+
+// c17Stmts: top-level statements of fd, as source text
+func c17Stmts(rel string, fd *ast.FuncDecl) []string {
+	var res []string
+	for _, s := range fd.Body.List {
+		res = append(res, c17Src(rel, s))
+	}
+	return res
+}
+
 func factsC17() {
+	// ---- C17
+	sg := "pkg/acme/signer.go"
+	addStrList("c17VerifyConds", c17IfConds(sg, methodDecl(sg, "signer", "verify")),
+		"signer.go verify: every if condition in source order (decision to sign, metric selection, write only with crt and key)")
+	addStrList("c17VerifyCalls", methodCalls(sg, "signer", "verify"), "signer.go verify: selector calls in source order")
+	addStrList("c17VerifyDue", []string{c17Src(sg, methodDecl(sg, "signer", "verify").Body.List[0])},
+		"signer.go verify: first statement (the due date)")
+	addStrList("c17MatchBody", c17Stmts(sg, funcDecl(sg, "match")), "signer.go match: statements")
+	gl := "pkg/haproxy/types/global.go"
+	addStrList("c17ShrinkConds", c17IfConds(gl, methodDecl(gl, "AcmeStorages", "shrink")), "global.go AcmeStorages.shrink: if conditions")
+	addStrList("c17AcquireConds", c17IfConds(gl, methodDecl(gl, "AcmeStorages", "Acquire")), "global.go AcmeStorages.Acquire: if conditions")
+	addStrList("c17AcquireAssigns", c17AssignsAll(gl, methodDecl(gl, "AcmeStorages", "Acquire")), "global.go AcmeStorages.Acquire: assignments")
+	addStrList("c17RemoveAllBody", c17Stmts(gl, methodDecl(gl, "AcmeStorages", "RemoveAll")), "global.go AcmeStorages.RemoveAll: statements")
+	addStrList("c17CommitBody", c17Stmts(gl, methodDecl(gl, "AcmeStorages", "Commit")), "global.go AcmeStorages.Commit: statements")
+	cf := "pkg/haproxy/config.go"
+	addStrList("c17ClearBody", c17Stmts(cf, methodDecl(cf, "config", "Clear")),
+		"config.go config.Clear: statements (only the backends are carried over; acmeData is the fresh one of createConfig)")
+	in := "pkg/haproxy/instance.go"
+	addStrList("c17AcmeUpdateConds", c17IfConds(in, methodDecl(in, "instance", "AcmeUpdate")), "instance.go AcmeUpdate: if conditions")
+	addStrList("c17AcmeUpdateCalls", methodCalls(in, "instance", "AcmeUpdate"), "instance.go AcmeUpdate: selector calls in source order")
+	ig := "pkg/converters/ingress/ingress.go"
+	var ctxs []string
+	ast.Inspect(methodDecl(ig, "converter", "trackAddedIngress").Body, func(n ast.Node) bool {
+		if c, ok := n.(*ast.CallExpr); ok && calleeName(c.Fun) == "c.tracker.TrackNames" && len(c.Args) == 4 {
+			ctxs = append(ctxs, c17Src(ig, c.Args[2]))
+		}
+		return true
+	})
+	addStrList("c17PreTrackContexts", ctxs,
+		"ingress.go trackAddedIngress: right-hand resource type of every pre-tracking call (no ResourceAcmeData)")
+}
+
+// c17AssignsAll: every assignment inside fd as source text
+func c17AssignsAll(rel string, fd *ast.FuncDecl) []string {
+	var res []string
+	ast.Inspect(fd.Body, func(n ast.Node) bool {
+		if a, ok := n.(*ast.AssignStmt); ok {
+			res = append(res, c17Src(rel, a))
+		}
+		return true
+	})
+	return res
 }
